@@ -17,7 +17,7 @@ PROPERTY = {
         'CPython 3.12, PyYAML 6.0.3, CrossHair 0.0.110 / z3 modelling of Python semantics',
     ],
     'bounds': {'stages': '2..3 quick / 2..4 thorough', 'leaf depth': '1..4 (a leaf up to three levels below the tagged container)', 'priority': 'absent|-1|0|1 per writer',
-               'site position': 'leaf or any enclosing mapping (one priority site per writer)'},
+               'site position': 'leaf or any enclosing mapping (one priority site per writer)', 'values': 'all writers distinct, or (variant) consecutive writers repeat the value already there'},
     'outside': ['an explicit child priority below a differently prioritised container (statement open)',
                 'type changes other than mapping<->scalar at the written path'],
     'per_split_timeout': {'quick': 300, 'thorough': 900},
@@ -55,6 +55,10 @@ def c03_writers(split, pp1, p1, pp2, p2, pp3, p3, pp4, p4):
     prio = [p1, p2, p3, p4][:n]
     docs = []
     eff = []
+
+    def val(i):
+        # variant 'same': consecutive writers repeat the value that is already there (writers 0/1 and 2/3 coincide)
+        return 10 * (i // 2 * 2 + 1) if split.get('same') else 10 * (i + 1)
     for i in range(n):
         flags = {}
         if pres[i]:
@@ -65,7 +69,7 @@ def c03_writers(split, pp1, p1, pp2, p2, pp3, p3, pp4, p4):
         # the site is always there (a tag without flags must be neutral: C01), user metadata on it
         md = {f'k{i}': i, 'shared': i}
         tag = site(f's{i}', flags, md)
-        docs.append(_doc(depth, pos[i], tag, 10 * (i + 1), f'x{i}' if split.get('extra') else None))
+        docs.append(_doc(depth, pos[i], tag, val(i), f'x{i}' if split.get('extra') else None))
     note(docs=docs)
     try:
         b = Builder()
@@ -84,7 +88,7 @@ def c03_writers(split, pp1, p1, pp2, p2, pp3, p3, pp4, p4):
     node = cfg
     for lvl in range(depth):
         node = node[KEYS[lvl]]
-    ok = (node == 10 * (best + 1))
+    ok = (node == val(best))
     wit('builds')
     if best != n - 1:
         wit('older_writer_wins')
@@ -183,6 +187,8 @@ def _splits(tier):
                     if tier == 'quick' and n == 3 and depth == 3 and extra:
                         continue
                     out.append({'depth': depth, 'n': n, 'pos': list(pos), 'extra': extra})
+                    if n >= 3 and not extra and (tier != 'quick' or depth <= 2):
+                        out.append({'depth': depth, 'n': n, 'pos': list(pos), 'extra': extra, 'same': True})
     return out
 
 
